@@ -144,7 +144,7 @@ func callAtom(a Atom, want Pred, names ...string) (*ssa.Call, bool) {
 	}
 	n := calleeName(c)
 	for _, x := range names {
-		if n == x {
+		if sameFn(n, x) {
 			return c, true
 		}
 	}
